@@ -2,12 +2,14 @@
 from __future__ import annotations
 
 import ast
+import copy
 from typing import Dict, List, Optional
 
 from sa.loader import AnalysisError, Unsupported, dotted_name, norm_text
 from sa.members import self_attr
 from sa.poly import Rat, ToRat
 from sa.report import where
+from sa.util import local_assignments
 
 MOD = 'torchtree.evolution.site_model'
 
@@ -61,21 +63,66 @@ def check_invariant(ctx, rep):
     if probs is None or rates is None or len(probs) != 2 or len(rates) != 2:
         raise Unsupported(fn, 'cat((…), -1) definitions of probabilities and rates not found')
 
-    def atom(e):
-        if isinstance(e, ast.Name) and e.id == p:
-            return Rat.sym('p')
-        if isinstance(e, ast.Call) and method_name(e) in ('zeros_like', 'zeros'):
-            return Rat.const(0)
-        if isinstance(e, ast.Call) and method_name(e) in ('ones_like', 'ones'):
-            return Rat.const(1)
-        return None
-    tr = ToRat(atom)
-    try:
-        P = [tr(x) for x in probs]
-        R = [tr(x) for x in rates]
-    except Unsupported as u:
-        rep.undecided('C05.I', 'InvariantSiteModel.update_rates_probs', W, str(u))
+    defs = local_assignments(fn)
+
+    def inline(e, depth=0):
+        """local names with one definition are replaced by their definition"""
+        if depth > 6:
+            return e
+
+        class T(ast.NodeTransformer):
+            def visit_Name(self, n):
+                if isinstance(n.ctx, ast.Load) and n.id != p and len(defs.get(n.id, [])) == 1:
+                    return inline(copy.deepcopy(defs[n.id][0]), depth + 1)
+                return n
+        return T().visit(copy.deepcopy(e))
+    probs = [inline(x) for x in probs]
+    rates = [inline(x) for x in rates]
+    # clamps / element-wise max-min make the value piecewise: the identities must hold on every piece
+    clamps = []
+    for x in probs + rates:
+        for c in ast.walk(x):
+            if isinstance(c, ast.Call) and method_name(c) in ('clamp', 'clamp_min', 'clamp_max', 'clip', 'maximum', 'minimum'):
+                clamps.append(c)
+    if len(clamps) > 4:
+        rep.undecided('C05.I', 'InvariantSiteModel.update_rates_probs', W, f"{len(clamps)} clamps")
         return
+
+    def pieces(c):
+        torch_fn = isinstance(c.func, ast.Attribute) and isinstance(c.func.value, ast.Name) and c.func.value.id == 'torch'
+        alts = [c.args[0]] if torch_fn else [c.func.value]
+        alts += list(c.args[1:] if torch_fn else c.args) + [k.value for k in c.keywords if k.arg in ('min', 'max', 'other')]
+        return [a for a in alts if not (isinstance(a, ast.Constant) and a.value is None)]
+    import itertools
+    verdicts = []
+    for choice in itertools.product(*[range(len(pieces(c))) for c in clamps]):
+        pick = {id(c): pieces(c)[i] for c, i in zip(clamps, choice)}
+
+        def atom(e):
+            if isinstance(e, ast.Call) and id(e) in pick:
+                return tr(pick[id(e)])
+            if isinstance(e, ast.Name) and e.id == p:
+                return Rat.sym('p')
+            if isinstance(e, ast.Call) and method_name(e) in ('zeros_like', 'zeros'):
+                return Rat.const(0)
+            if isinstance(e, ast.Call) and method_name(e) in ('ones_like', 'ones'):
+                return Rat.const(1)
+            return None
+        tr = ToRat(atom)
+        try:
+            P = [tr(x) for x in probs]
+            R = [tr(x) for x in rates]
+        except Unsupported as u:
+            rep.undecided('C05.I', 'InvariantSiteModel.update_rates_probs', W, str(u))
+            return
+        verdicts.append((choice, P, R))
+    for choice, P, R in verdicts[1:]:
+        mean = P[0] * R[0] + P[1] * R[1]
+        what = ', '.join(f"`{norm_text(c)[:50]}` takes the value `{norm_text(pieces(c)[i])[:30]}`" for c, i in zip(clamps, choice))
+        rep.check('C05.I', f"InvariantSiteModel::mean-rate-is-one::piece{''.join(map(str, choice))}", mean.equals(1) and (P[0] + P[1]).equals(1), W,
+                  {'piece': what, 'mean_rate': repr(mean)},
+                  f"where {what}, Σ prob_k·rate_k = {mean!r}, not 1: on that part of the parameter range the model changes the expected number of substitutions")
+    choice, P, R = verdicts[0]
     mean = P[0] * R[0] + P[1] * R[1]
     facts = {'probabilities': [repr(x) for x in P], 'rates': [repr(x) for x in R], 'mean_rate': repr(mean)}
     rep.check('C05.I', 'InvariantSiteModel::mean-rate-is-one', mean.equals(1), W, facts,
@@ -271,7 +318,90 @@ def check_inplace(ctx, rep):
         rep.ok('C05.A', 'site_model::no-in-place-updates', mod.path, {'sites': 0})
 
 
+AUDITED = {
+    # class -> rule deciding its mean-rate identity; every SiteModel class of the package must be listed (a new one is reported as undecided, not silently trusted)
+    'SiteModel': 'abstract',
+    'ConstantSiteModel': 'C05.C',
+    'InvariantSiteModel': 'C05.I',
+    'UnivariateDiscretizedSiteModel': 'C05.N',
+    'WeibullSiteModel': 'C05.N (inverse_cdf)',
+}
+RATE_METHODS = {'rates', 'probabilities', 'update_rates', 'update_rates_probs', 'inverse_cdf'}
+
+
+def check_constant(ctx, rep):
+    cls = ctx.classes.get(f"{MOD}.ConstantSiteModel")
+    init = cls.methods.get('__init__')
+    W = where(cls.module, cls.node)
+
+    def returned_attr(name):
+        fn = cls.resolve(name)[1]
+        rets = [r for r in ast.walk(fn) if isinstance(r, ast.Return) and r.value is not None]
+        if len(rets) != 1:
+            raise Unsupported(fn, f"{name}() has {len(rets)} return statements")
+        v = rets[0].value
+        tensor_of = isinstance(v, ast.Attribute) and v.attr == 'tensor'
+        return self_attr(v.value if tensor_of else v), tensor_of
+    (rattr, r_is_param), (pattr, _) = returned_attr('rates'), returned_attr('probabilities')
+    adefs = {}
+    for st in ast.walk(init):
+        if isinstance(st, ast.Assign) and self_attr(st.targets[0]):
+            adefs.setdefault(self_attr(st.targets[0]), []).append(st.value)
+    mu = init.args.args[2].arg if len(init.args.args) > 2 else 'mu'
+
+    def atom(e):
+        if isinstance(e, ast.Name) and e.id == mu:
+            return Rat.sym('mu')
+        if isinstance(e, ast.Call) and method_name(e) in ('ones', 'ones_like'):
+            return Rat.const(1)
+        if isinstance(e, ast.Call) and method_name(e) == 'Parameter' and len(e.args) == 2:
+            return ToRat(atom)(e.args[1])
+        return None
+    facts = {'rates_attribute': rattr, 'probabilities_attribute': pattr}
+    ok = False
+    why = ''
+    if rattr in adefs and pattr in adefs and len(adefs[rattr]) == 1 and len(adefs[pattr]) == 1:
+        rv, pv = adefs[rattr][0], adefs[pattr][0]
+        try:
+            P = ToRat(atom)(pv)
+            if isinstance(rv, ast.IfExp):
+                branches = [ToRat(atom)(rv.body), ToRat(atom)(rv.orelse)]
+                test_ok = ast.unparse(rv.test).replace(' ', '') in (f"{mu}isnotNone", f"{mu}isNone")
+                if ast.unparse(rv.test).replace(' ', '') == f"{mu}isNone":
+                    branches.reverse()
+                ok = test_ok and branches[0].equals(Rat.sym('mu')) and branches[1].equals(1) and P.equals(1)
+                facts.update({'rate_with_mu': repr(branches[0]), 'rate_without_mu': repr(branches[1]), 'probability': repr(P)})
+            else:
+                R = ToRat(atom)(rv)
+                ok = (R.equals(1) or R.equals(Rat.sym('mu'))) and P.equals(1)
+                facts.update({'rate': repr(R), 'probability': repr(P)})
+        except Unsupported as u:
+            why = str(u)
+    rep.check('C05.C', 'ConstantSiteModel::single-category-rate-mu-or-one-with-probability-one', ok, W, facts,
+              f"the constant model must report one category with probability 1 and rate mu (1 without mu): Σ prob·rate = mu{'; ' + why if why else ''}")
+
+
+def check_inventory(ctx, rep):
+    base = ctx.classes.get(f"{MOD}.SiteModel")
+    n = 0
+    for c in [base] + ctx.classes.subclasses(base.qualname, strict=True):
+        n += 1
+        own = sorted(RATE_METHODS & set(c.methods))
+        key = f"{c.node.name}::audited-site-model"
+        if c.node.name in AUDITED and c.module.name == MOD:
+            rep.ok('C05.C', key, where(c.module, c.node), {'decided_by': AUDITED[c.node.name], 'defines': own})
+        elif not own:
+            rep.ok('C05.C', key, where(c.module, c.node), {'decided_by': 'inherits every rate method from an audited class', 'defines': own})
+        else:
+            rep.incomplete('C05.C', key, where(c.module, c.node), f"{c.qualname} defines {own} and is none of the audited site models {sorted(AUDITED)}: whether its "
+                           f"Σ prob·rate is one (mu) is not decided by any rule")
+    if n < 5:
+        raise AnalysisError(f"only {n} SiteModel classes found")
+
+
 def run(ctx, rep):
+    from sa import callbind
+    callbind.run_for(ctx, rep, 'C05', 4)
     rep.explanation = (
         "InvariantSiteModel: probabilities and rates are turned into rational functions of the invariant proportion p and Σ prob·rate = 1, Σ prob = 1 "
         "are checked as identities; the exactly-zero block is aligned with the invariant probability.  Discretised models: the stored rates have the "
@@ -283,7 +413,8 @@ def run(ctx, rep):
     rep.rule('C05.N', "discretised models: rates = X / Σ(X·P) with the reported P, P defined first and summing to one, mid-point quantiles with the branch's K, mu last")
     rep.rule('C05.A', "in-place updates of cached rates/probabilities only hit a tensor built earlier in the same call on every path (no accumulation across evaluations)")
     rep.not_decided += ["non-negativity for all shapes", "batched shapes", "quantile accuracy"]
-    for f, rule in ((check_invariant, 'C05.I'), (check_discretized, 'C05.N'), (check_inplace, 'C05.A')):
+    rep.rule('C05.C', "constant model: one category, probability 1, rate mu (1 without mu); every SiteModel class of the package is decided by one of the rules")
+    for f, rule in ((check_invariant, 'C05.I'), (check_discretized, 'C05.N'), (check_inplace, 'C05.A'), (check_constant, 'C05.C'), (check_inventory, 'C05.C')):
         try:
             f(ctx, rep)
         except Unsupported as u:
